@@ -263,7 +263,8 @@ def main():
 
 COMPONENTS = {
     'depccg/parsing.py': 'real (seams Pool/time replaced by attribute assignment)',
-    'depccg/parsing.h': 'real C++ compiled from the working tree behind a C-ABI shim (pop hook H1 on)',
+    'depccg/parsing.h': ('real C++ compiled from the working tree behind a C-ABI shim (pop hook H1 on), in two builds: release = the '
+                         'flags setup.py gets from the interpreter (-DNDEBUG -O3), assert = -UNDEBUG -D_GLIBCXX_ASSERTIONS; every run draws one'),
     'depccg/parsing.pyx': 'real text executed by mechanical transliteration to Python (no Cython in the sandbox)',
     'multiprocessing.Pool': 'stub SimPool (pickle transport real; schedule owned by the simulator)',
     'time': 'stub virtual clock',
